@@ -143,6 +143,23 @@ where
                 (*a, partners(d, a, &lat, &mut rng))
             }
         };
+        // the same again for a seeded interior ("non-round") colour: cancellation in polar formulas needs inexact squares
+        let mut todo: Vec<([f64; 3], Vec<[f64; 3]>)> = vec![(a, parts)];
+        if replay.is_none() {
+            let mut c = [0.0; 3];
+            loop {
+                for k in 0..3 {
+                    let (lo, hi) = d.ranges[k];
+                    c[k] = lo + (hi - lo) * (0.001 + 0.998 * rng.unit());
+                }
+                if !(d.hwb && c[1] + c[2] > 1.0) {
+                    break;
+                }
+            }
+            let ps = partners(d, &c, &lat, &mut rng);
+            todo.push((c, ps));
+        }
+        for (a, parts) in todo {
         let ca: C = mk::<C, T>(&a);
         for b in parts {
             let cb: C = mk::<C, T>(&b);
@@ -188,6 +205,8 @@ where
                 }
             }
         }
+        }
+        let a = lat[li];
         let on_bound = (0..3).filter(|&i| d.hue != Some(i) && (a[i] == d.ranges[i].0 || a[i] == d.ranges[i].1)).count();
         m.cell_s(&format!("{}{}{}", inst, on_bound, (0..3).filter(|&i| a[i] == 0.0).count()));
     }
@@ -212,8 +231,8 @@ macro_rules! diff_ops {
 macro_rules! common {
     ($C:ty, $T:ty) => {{
         let unary = un_ops!($C, $T;
-            "lighten" => |c, f| c.lighten(f), "lighten_fixed" => |c, f| c.lighten_fixed(f),
-            "darken" => |c, f| c.darken(f), "darken_fixed" => |c, f| c.darken_fixed(f));
+            "lighten" => |c, f| Lighten::lighten(c, f), "lighten_fixed" => |c, f| Lighten::lighten_fixed(c, f),
+            "darken" => |c, f| Darken::darken(c, f), "darken_fixed" => |c, f| Darken::darken_fixed(c, f));
         let mixes = mix_ops!($C, $T; "mix" => |a, b, f| a.mix(b, f));
         (unary, mixes)
     }};
@@ -234,13 +253,13 @@ macro_rules! blend_ops {
     ($C:ty, $T:ty) => {{
         let mut v: Vec<(&'static str, fn($C, f64, $C, f64) -> Vec<f64>)> = Vec::new();
         macro_rules! b {
-            ($name:expr, $op:ident) => {
+            ($name:expr, $tr:ident, $op:ident) => {
                 v.push(($name, (|a: $C, aa: f64, b: $C, ab: f64| -> Vec<f64> {
                     let (x, y) = (Alpha { color: a, alpha: <$T as Fl>::f(aa) }, Alpha { color: b, alpha: <$T as Fl>::f(ab) });
-                    let r: Alpha<$C, $T> = x.$op(y);
+                    let r: Alpha<$C, $T> = $tr::$op(x, y);
                     let mut o = un::<$C, $T>(r.color);
                     o.push(r.alpha.d());
-                    let p: PreAlpha<$C> = PreAlpha::from(x).$op(PreAlpha::from(y));
+                    let p: PreAlpha<$C> = $tr::$op(PreAlpha::from(x), PreAlpha::from(y));
                     o.extend(un::<$C, $T>(p.color));
                     o.push(p.alpha.d());
                     let back: Alpha<$C, $T> = p.into();
@@ -249,29 +268,29 @@ macro_rules! blend_ops {
                 }) as fn($C, f64, $C, f64) -> Vec<f64>));
             };
         }
-        b!("multiply", multiply);
-        b!("screen", screen);
-        b!("overlay", overlay);
-        b!("darken_blend", darken);
-        b!("lighten_blend", lighten);
-        b!("dodge", dodge);
-        b!("burn", burn);
-        b!("hard_light", hard_light);
-        b!("soft_light", soft_light);
-        b!("difference", difference);
-        b!("exclusion", exclusion);
-        b!("over", over);
-        b!("inside", inside);
-        b!("outside", outside);
-        b!("atop", atop);
-        b!("xor", xor);
-        b!("plus", plus);
+        b!("multiply", Blend, multiply);
+        b!("screen", Blend, screen);
+        b!("overlay", Blend, overlay);
+        b!("darken_blend", Blend, darken);
+        b!("lighten_blend", Blend, lighten);
+        b!("dodge", Blend, dodge);
+        b!("burn", Blend, burn);
+        b!("hard_light", Blend, hard_light);
+        b!("soft_light", Blend, soft_light);
+        b!("difference", Blend, difference);
+        b!("exclusion", Blend, exclusion);
+        b!("over", Compose, over);
+        b!("inside", Compose, inside);
+        b!("outside", Compose, outside);
+        b!("atop", Compose, atop);
+        b!("xor", Compose, xor);
+        b!("plus", Compose, plus);
         v.push(("premultiply_unpremultiply", (|a: $C, aa: f64, _b: $C, _ab: f64| -> Vec<f64> {
             let p = a.premultiply(<$T as Fl>::f(aa));
-            let (c, al) = p.unpremultiply();
+            let back = p.unpremultiply();
             let mut o = un::<$C, $T>(p.color);
-            o.extend(un::<$C, $T>(c));
-            o.push(al.d());
+            o.extend(un::<$C, $T>(back.color));
+            o.push(back.alpha.d());
             o
         }) as fn($C, f64, $C, f64) -> Vec<f64>));
         v
@@ -301,7 +320,7 @@ fn main() {
     pvmon::report::quiet_panics();
     let mut m = Monitor::new(
         mname,
-        "21 colour types x f32/f64: every colour difference the type offers (delta_e, improved_delta_e, CIEDE2000 difference / improved_difference / get_color_difference, hybrid_distance, distance, distance_squared, WCAG relative_contrast), mix, lighten / darken (relative, fixed), saturate / desaturate (relative, fixed), shift_hue, with_hue, and for the blendable types the eleven blend modes, six Porter-Duff operators (on Alpha and PreAlpha) and premultiply / unpremultiply return finite values and do not panic on: the boundary lattice of the type paired with itself, with copies nudged in one component by 1e-9 .. 1e-3 of its range, and with other lattice points; factors and alphas from {0, 1e-9, 1/4, 1/2, 1 - 1e-9, 1}; distinct = (type, float, number of components on a bound, number of zeros)",
+        "21 colour types x f32/f64: every colour difference the type offers (delta_e, improved_delta_e, CIEDE2000 difference / improved_difference / get_color_difference, hybrid_distance, distance, distance_squared, WCAG relative_contrast), mix, lighten / darken (relative, fixed), saturate / desaturate (relative, fixed), shift_hue, with_hue, and for the blendable types the eleven blend modes, six Porter-Duff operators (on Alpha and PreAlpha) and premultiply / unpremultiply return finite values and do not panic on: the boundary lattice of the type and one seeded interior colour per lattice point, each paired with itself, with copies nudged in one component by 1e-9 .. 1e-3 of its range, and with other lattice points; factors and alphas from {0, 1e-9, 1/4, 1/2, 1 - 1e-9, 1}; distinct = (type, float, number of components on a bound, number of zeros)",
     );
     type St = encoding::Srgb;
     type Lin = encoding::Linear<encoding::Srgb>;
@@ -376,12 +395,12 @@ fn main() {
         ($T:ty) => {{
             type C = Oklab<$T>;
             let (unary, mixes) = common!(C, $T);
-            let ops = Ops { diffs: diff_ops!(C, $T; "hybrid_distance" => |a, b| a.hybrid_distance(b), "distance" => |a, b| a.distance(b), "distance_squared" => |a, b| a.distance_squared(b), "delta_e" => |a, b| a.delta_e(b), "improved_delta_e" => |a, b| a.improved_delta_e(b)), mixes, unary, blends: vec![] };
+            let ops = Ops { diffs: diff_ops!(C, $T; "hybrid_distance" => |a, b| a.hybrid_distance(b), "distance" => |a, b| a.distance(b), "distance_squared" => |a, b| a.distance_squared(b)), mixes, unary, blends: vec![] };
             suite::<C, $T>(&ctx, &mut m, &desc("Oklab", [U, (-0.4, 0.4), (-0.4, 0.4)], None), &ops);
             type H = Oklch<$T>;
             let (mut unary, mixes) = common!(H, $T);
             unary.extend(hue_ops!(H, $T));
-            let ops = Ops { diffs: diff_ops!(H, $T; "delta_e" => |a, b| a.delta_e(b), "improved_delta_e" => |a, b| a.improved_delta_e(b)), mixes, unary, blends: vec![] };
+            let ops: Ops<H> = Ops { diffs: vec![], mixes, unary, blends: vec![] };
             suite::<H, $T>(&ctx, &mut m, &desc("Oklch", [U, (0.0, 0.4), HUE], Some(2)), &ops);
             macro_rules! cyl {
                 ($S:ty, $name:expr, $sat:expr, $hwb:expr) => {{
